@@ -1,8 +1,8 @@
 """Seeded generators: signals, sift option sets, phases, label vectors."""
 import numpy as np
 
-FAMILIES = ['noise', 'walk', 'tones', 'amfm', 'int', 'const', 'ramp']
-OSC_FAMILIES = ['noise', 'walk', 'tones', 'amfm', 'int']
+FAMILIES = ['noise', 'walk', 'tones', 'amfm', 'int', 'const', 'ramp', 'periodic', 'palindrome', 'steps']
+OSC_FAMILIES = ['noise', 'walk', 'tones', 'amfm', 'int', 'periodic', 'palindrome']
 
 
 def signal(rng, kind, n):
@@ -24,6 +24,21 @@ def signal(rng, kind, n):
         return np.full(n, rng.uniform(-2, 2))
     if kind == 'ramp':
         return np.linspace(rng.uniform(-1, 0), rng.uniform(0.1, 1), n)
+    # structured content that random data rarely has
+    if kind == 'periodic':
+        # an exactly repeating block (integer period), optionally on a trend
+        per = int(rng.integers(4, 24))
+        block = rng.standard_normal(per) if rng.random() < .5 else np.sin(2 * np.pi * np.arange(per) / per) + .4 * np.sin(4 * np.pi * np.arange(per) / per + 1)
+        x = np.tile(block, n // per + 1)[:n]
+        return x + (t / n * rng.uniform(-1, 1) if rng.random() < .3 else 0)
+    if kind == 'palindrome':
+        half = np.cumsum(rng.standard_normal((n + 1) // 2)) if rng.random() < .5 else rng.standard_normal((n + 1) // 2)
+        return np.concatenate([half, half[::-1]])[:n]
+    if kind == 'steps':
+        # piecewise constant: long runs of a repeated value
+        nseg = max(2, n // int(rng.integers(3, 12)))
+        lens = rng.multinomial(n, np.ones(nseg) / nseg)
+        return np.concatenate([np.full(L, v) for L, v in zip(lens, rng.integers(-4, 5, nseg).astype(float))])[:n] if lens.sum() >= n else np.zeros(n)
     raise ValueError(kind)
 
 
